@@ -198,6 +198,8 @@ pub struct Tracer<W: Write> {
     pub w: W,
     pub steps: usize,
     pub panics: usize,
+    pub truncated: usize,
+    pub max_lines: usize,
 }
 
 impl<W: Write> Tracer<W> {
@@ -245,6 +247,12 @@ impl<W: Write> Tracer<W> {
                             writeln!(self.w, "FN {}", fmt_function(&f)).unwrap();
                             self.state(&vt);
                             self.steps += 1;
+                            if vt.lines().len() > self.max_lines {
+                                // keep traces small: a huge scrollback ends the case
+                                self.truncated += 1;
+                                writeln!(self.w, "END").unwrap();
+                                return true;
+                            }
                         }
                     }
                 }
@@ -386,7 +394,7 @@ fn main() {
             let first: usize = arg(&args, "--first").map_or(0, |s| s.parse().unwrap());
             let prof = profile(arg(&args, "--profile").unwrap_or("general"));
             let queries = args.iter().any(|a| a == "--queries");
-            let mut tr = Tracer { w: out, steps: 0, panics: 0 };
+            let mut tr = Tracer { w: out, steps: 0, panics: 0, truncated: 0, max_lines: 150 };
             let mut kinds = 0usize;
             for i in first..first + cases {
                 // one PRNG state per case, derived from (seed, case index): replayable in isolation
@@ -397,8 +405,8 @@ fn main() {
             }
             tr.w.flush().unwrap();
             eprintln!(
-                "harness: profile={} seed={} cases={} ops={} checkpoints={} panics={}",
-                prof.name, seed, cases, kinds, tr.steps, tr.panics
+                "harness: profile={} seed={} cases={} ops={} checkpoints={} panics={} truncated={}",
+                prof.name, seed, cases, kinds, tr.steps, tr.panics, tr.truncated
             );
         }
         "replay" => {
@@ -426,7 +434,7 @@ fn main() {
                 limit: if hdr[2] < 0 { None } else { Some(hdr[2] as usize) },
                 ops,
             };
-            let mut tr = Tracer { w: out, steps: 0, panics: 0 };
+            let mut tr = Tracer { w: out, steps: 0, panics: 0, truncated: 0, max_lines: 150 };
             tr.run_case(0, &case, true);
             tr.w.flush().unwrap();
         }
